@@ -25,7 +25,23 @@ def gen_keys(rng, n):
     return [rng.randrange(100000) for _ in range(n)]
 
 
+def gen_op_many(rng, elems):
+    """>= 17 threads (so >= 17 locally sorted runs for multisequence_partition), 2-4 distinct keys"""
+    n = rng.randrange(40, 200)
+    threads = rng.choice([17, 17, 18, 20, 24, 32, 33, 40])
+    variant = rng.choice(["s", "s", "u"])
+    cmp = rng.choice(["lt", "lt", "gt", "half"])
+    split = rng.choice(["exact", "exact", "sampling"])
+    nv = rng.choice([2, 2, 3, 4])
+    keys = [rng.randrange(nv) for _ in range(n)]
+    if cmp == "half":
+        keys = [2 * k + rng.randrange(2) for k in keys]
+    return f"ms {variant} {cmp} {split} {threads} {rng.choice([1, 2, 10])} {rng.choice(elems)} " + ",".join(str(k) for k in keys)
+
+
 def gen_op(rng, tier, elems=("pod", "log", "log", "own", "own")):
+    if rng.random() < 0.06:
+        return gen_op_many(rng, elems)
     r = rng.random()
     if r < 0.08:
         n = rng.choice([0, 1, 2])
